@@ -16,8 +16,8 @@ ASSUMPTIONS = [
     'hash-map iteration order is not relied upon (maps are abstract finite maps; BTreeMaps are ordered by the real derived Ord executed from MIR)',
 ]
 BOUNDS = {
-    'quick': 'loader: 3 shapes (default depots / given depots / no maintenance), passengers and seated <= 2^30, other numbers up to u32::MAX / 2^62; pairwise rules: 2 locations, 2 service trips + 1 maintenance slot + 1 depot + overflow depot, every ordered node pair, times < 4096 s, durations 1..1024 s, dead-heads/shunting symbolic; enumerations: 2 service trips + 1 slot, 1 type',
-    'thorough': 'loader: 4 shapes (adds 3 locations), times over a full day; pairwise rules: 3 locations, times over a full day (< 86400 s, arrival may carry into the next day); enumerations: up to 3 service trips + 1 slot, 2 types, 2 depots; Network::new on the same shapes',
+    'quick': 'loader: 4 shapes (default depots / given depots / no maintenance / three locations), passengers and seated <= 2^30, other numbers up to u32::MAX / 2^62; pairwise rules: 2 locations, 2 service trips + 1 maintenance slot + 1 depot + overflow depot, every ordered node pair, times < 4096 s, durations 1..1024 s, dead-heads/shunting symbolic; enumerations: 2 service trips + 1 slot, 1 type',
+    'thorough': 'loader: the same 4 shapes with times over a full day; pairwise rules: 3 locations, times over a full day (< 86400 s, arrival may carry into the next day); enumerations: up to 3 service trips + 1 slot, 2 types, 2 depots; Network::new on the same shapes',
 }
 OUTSIDE = 'serde/JSON parsing and date-string parsing (DateTime::new is a table from tokens to symbolic instants); values beyond u32 (the loader truncates with `as`); vehicle capacities/seats symbolic (concrete, pairwise distinct in the loader jobs); instances larger than the bounds'
 _COV = ['tie:end==start reachable', 'limit:segment-only', 'limit:both', 'limit:type-only', 'limit:neither', 'default depots', 'zero passengers', 'dead-head beyond horizon']
